@@ -28,6 +28,7 @@ for n in (0, 1, 2, 3):
     for with_subject in (False, True):
         v = f"san{n}" + ("+subject" if with_subject else "")
         c = contract(f"{M}.match_hostname", prop="C08", variant=v)
+        c.props.add("C07")
         c.types(hostname="str", hostname_checks_common_name="bool")
         keys = ["subjectAltName"] + (["subject"] if with_subject else [])
         c.ldict("cert", keys)
